@@ -514,7 +514,7 @@ def compare(ctx, cases, scratch):
             if flags != m["flags"]:
                 ctx.disagree(c, {"flags": m["flags"]}, {"flags": flags}, where="claim-predicate")
             _, exp = computed_env(c)
-            if flags[1] == "1" and m["protect"] != exp:
+            if flags[1] == "1" and all(valid_name(k) for k, _ in c["old"]) and m["protect"] != exp:
                 ctx.disagree(c, {"protect": m["protect"]}, {"computed_env": exp}, where="oracle-vs-coq-statement")
             if flags == "11111" and c["shell"] == "sh" and not c["aliases"] and not c["oldaliases"]:
                 # what emit_sound says about the model
